@@ -562,7 +562,7 @@ func genProxy(t *rapid.T) proxyCase {
 				seen["go.mod"] = true
 			}
 			if rapid.IntRange(0, 7).Draw(t, "big") == 0 {
-				m.Files = append(m.Files, mfile{Name: "big.dat", Data: vt.B("big\n"), Pad: 3 << 20})
+				m.Files = append(m.Files, mfile{Name: "big.dat", Data: vt.B("big\n"), Pad: 1 << 20})
 				seen["big.dat"] = true
 			}
 			for k, nf := 0, rapid.IntRange(0, 6).Draw(t, "nfiles"); k < nf; k++ {
@@ -635,7 +635,7 @@ func TestProxy(t *testing.T) {
 			out = append(out, d)
 		}
 		return out
-	}}, vt.N(150, 2000))
+	}}, vt.N(150, 500))
 	rec.Class("proxy:go-mod-downloads", e2eDownloads)
 }
 
